@@ -50,7 +50,8 @@ pub fn parse_query_string(input: &str) -> Result<Request, ParseRequestError> {
         operation_name: request.operation_name,
         variables,
         extensions,
-        ..Request::new(request.query)
+        // a query string is how HTTP GET carries a request: no mutations
+        ..Request::new(request.query).disable_mutation()
     })
 }
 
